@@ -71,10 +71,10 @@ func (e *Env) count() {
 	}
 }
 
-func (e *Env) ObsU64(v uint64)    { e.obs = HashU64(e.obs, v) }
-func (e *Env) ObsInt(v int)       { e.obs = HashU64(e.obs, uint64(int64(v))) }
-func (e *Env) ObsBytes(b []byte)  { e.obs = HashU64(HashBytes(e.obs, b), uint64(len(b))) }
-func (e *Env) ObsStr(s string)    { e.obs = HashU64(HashBytes(e.obs, []byte(s)), uint64(len(s))) }
+func (e *Env) ObsU64(v uint64)   { e.obs = HashU64(e.obs, v) }
+func (e *Env) ObsInt(v int)      { e.obs = HashU64(e.obs, uint64(int64(v))) }
+func (e *Env) ObsBytes(b []byte) { e.obs = HashU64(HashBytes(e.obs, b), uint64(len(b))) }
+func (e *Env) ObsStr(s string)   { e.obs = HashU64(HashBytes(e.obs, []byte(s)), uint64(len(s))) }
 func (e *Env) ObsBool(b bool) {
 	if b {
 		e.ObsU64(1)
@@ -91,7 +91,7 @@ func (e *Env) ObsErr(err error) {
 }
 
 // OpDone closes the observations of one op of the party's script.
-func (e *Env) OpDone() { e.OpObs = append(e.OpObs, e.obs) }
+func (e *Env) OpDone()        { e.OpObs = append(e.OpObs, e.obs) }
 func (e *Env) Digest() uint64 { return e.obs }
 
 // ---- process-wide hook plumbing (one world runs at a time per worker process) ----
@@ -174,4 +174,21 @@ func PanicString(v interface{}) string {
 		return x
 	}
 	return fmt.Sprint(v)
+}
+
+// RecoverWD is RecoverLib that also catches the simulator's own watchdog, for the calls
+// whose non-termination is itself the property under test (C12: RunUntil always returns).
+func RecoverWD(f func()) (panicked bool, val interface{}, watchdog bool) {
+	defer func() {
+		if r := recover(); r != nil {
+			if _, ok := r.(WatchdogAbort); ok {
+				watchdog = true
+				return
+			}
+			panicked = true
+			val = r
+		}
+	}()
+	f()
+	return
 }
